@@ -28,7 +28,7 @@ TInit == l = 1 /\ TLCSet(2, 0)
 TNext ==
   /\ l <= Len(TraceLog)
   /\ (LET e == TraceLog[l]  v == Verdict(e) IN
-        (v = "ok" \/ PrintT(<<"MISMATCH", l, e.op, e.alg, e.nbits, v>>)))
+        IF v = "ok" THEN TRUE ELSE PrintT(<<"MISMATCH", l, e.op, e.alg, e.nbits, v>>))
   /\ TLCSet(2, l)
   /\ l' = l + 1
 Consumed == PrintT(<<"CONSUMED", TLCGet(2)>>)
